@@ -20,7 +20,7 @@ func init() { checks["C16"] = c16 }
 func c16(args []string) {
 	c := chk.New("C16", "exploration", args)
 	c.Build(false)
-	c.Rule("generated graphs (<= 9 processes, file and parameter edges, ParamSource / ParamCombinator processes, independent branches): (1) every single in-port or parameter in-port left unconnected in turn -> Run must refuse before any command (exit != 0, empty command trace), while unconsumed out-ports are drained automatically (base run succeeds); (2) RunTo on every target set of size <= 2 plus random larger ones, addressed by name, by regex and by process value -> the set of processes with executed commands equals the reference's upstream closure over file and parameter connections, every task of it exactly once, files equal the closure's reference, no command of any other process; bundled components: the in-ports of MapToTags, FileSplitter, Concatenator, StreamToSubStream and the dependency port of FileGlobberDependent left unconnected must be refused too, and CommandToParams (whose command writes a marker file) must not run its command when it is outside the closure or the workflow is refused. distinct_nontrivial = distinct (graph shape, omitted port) refusals in graphs where some other process could have executed + distinct (graph shape, target set, addressing mode) with a proper closure (neither empty nor everything)")
+	c.Rule("generated graphs (<= 9 processes, file and parameter edges, ParamSource / ParamCombinator processes, independent branches): (1) every single in-port or parameter in-port left unconnected in turn (file in-ports also connected and then taken off again through the public Disconnect) -> Run must refuse before any command (exit != 0, empty command trace), while unconsumed out-ports are drained automatically (base run succeeds); (2) RunTo on every target set of size <= 2 plus random larger ones, addressed by name, by regex and by process value -> the set of processes with executed commands equals the reference's upstream closure over file and parameter connections, every task of it exactly once, files equal the closure's reference, no command of any other process; bundled components: the in-ports of MapToTags, FileSplitter, Concatenator, StreamToSubStream and the dependency port of FileGlobberDependent left unconnected must be refused too, and CommandToParams (whose command writes a marker file) must not run its command when it is outside the closure or the workflow is refused. distinct_nontrivial = distinct (graph shape, omitted port) refusals in graphs where some other process could have executed + distinct (graph shape, target set, addressing mode) with a proper closure (neither empty nor everything)")
 	c.Assume("unconnected ports in processes outside a RunTo closure are not judged (the property states the wiring check for Run)")
 	rng := c.Rand("c16")
 	type job struct {
@@ -83,6 +83,25 @@ func c16(args []string) {
 				}
 				p2.Feeds = feeds
 				jobs = append(jobs, &job{s: s2, exp: exp, cfg: cfg(), kind: "unconnected", what: p.Name + "." + n + " (" + pi.Type + ")", base: s})
+				if pi.Type == "i" {
+					// the port was connected and the connection taken off again (InPort.Disconnect, or Disconnect on both sides)
+					s3 := s.Clone()
+					nin := 0
+					for _, cn := range s3.Conns {
+						if cn.To == p.Name+"."+n {
+							nin++
+						}
+					}
+					if nin == 1 && !strings.Contains(p.Cmd, "|join:") {
+						how := []string{"in", "both"}[len(jobs)%2]
+						for _, cn := range s3.Conns {
+							if cn.To == p.Name+"."+n {
+								cn.Undo = how
+							}
+						}
+						jobs = append(jobs, &job{s: s3, exp: exp, cfg: cfg(), kind: "unconnected", what: p.Name + "." + n + " (connected, then disconnected: " + how + ")", base: s})
+					}
+				}
 			}
 		}
 		// (2) RunTo target sets
